@@ -45,6 +45,7 @@ type Case struct {
 	Corpus  string         `json:"corpus,omitempty"`
 	Configs []Config       `json:"configs"`
 	Header  string         `json:"header,omitempty"` // -header_file content for generated programs
+	Tags    string         `json:"tags,omitempty"`   // -tags value, the same in every configuration of the case (a fixed option)
 	AutoSites bool         `json:"autosites,omitempty"` // add one single-site flip per site reached with >= 2 keys in the baseline
 }
 
@@ -70,6 +71,7 @@ type program struct {
 	app, ext []world.File
 	pkgs     []string // package directories (relative to the module root) that may get an output
 	header   []byte
+	tags     string
 	target   []string // default patterns
 	digest   string
 }
@@ -166,6 +168,9 @@ func runConfig(b *common.Build, st *Stats, p *program, cfg Config, dir string, n
 	if len(p.header) > 0 {
 		args = append(args, "-header_file", filepath.Join(appDir, "hdr.txt"))
 	}
+	if p.tags != "" {
+		args = append(args, "-tags", p.tags)
+	}
 	pats := cfg.Patterns
 	if len(pats) == 0 {
 		pats = p.target
@@ -176,8 +181,17 @@ func runConfig(b *common.Build, st *Stats, p *program, cfg Config, dir string, n
 	plan := &world.Plan{Seed: uint64(n + 1), Iter: cfg.Iter, Sites: cfg.Sites, Clock: cfg.Clock, Pid: cfg.Pid, Host: cfg.Host}
 	var extra []string
 	if cfg.Noise {
-		extra = append(extra, "HOME="+filepath.Join(rootDir, "other home"), "USER=someone-else", "LOGNAME=someone-else", "TMPDIR="+rootDir, "LANG=de_DE.UTF-8", "TZ=Pacific/Kiritimati", "PWD="+cwd, fmt.Sprintf("GOMAXPROCS=%d", 1+n%3))
+		extra = append(extra, "HOME="+filepath.Join(rootDir, "other home"), "USER=someone-else", "LOGNAME=someone-else", "TMPDIR="+rootDir, "LANG=de_DE.UTF-8", "TZ=Pacific/Kiritimati", "PWD="+cwd, fmt.Sprintf("GOMAXPROCS=%d", 1+n%3), "WIRE_DEBUG=1", "CI=true", "GOAMD64=v1", "EDITOR=ed", "XDG_CACHE_HOME="+filepath.Join(rootDir, "xdg"))
 		os.MkdirAll(filepath.Join(rootDir, "other home"), 0777)
+		if n%2 == 1 {
+			// build tags in the environment's GOFLAGS (wire's own -tags=wireinject on the go list command line
+			// overrides them, so they select no other files): environment, not an option of the invocation
+			gf := "-tags=integration,e2e"
+			if cfg.Layout == world.LayoutModVendor {
+				gf = "-mod=vendor " + gf
+			}
+			extra = append(extra, "GOFLAGS="+gf)
+		}
 	}
 	res := w.Exec(b.WireSim, cwd, plan, dir, extra, args...)
 	st.Runs.Add("wire_gen", 1)
@@ -262,6 +276,7 @@ func RunCase(b *common.Build, st *Stats, c *Case, dir string) *Outcome {
 		p = &program{target: []string{"./..."}}
 		p.app, p.ext = c.Module.Files(false)
 		p.header = []byte(c.Header)
+		p.tags = c.Tags
 		for _, pk := range c.Module.Pkgs {
 			if pk.Idx >= c.Module.Ext {
 				p.pkgs = append(p.pkgs, pk.Path)
@@ -519,6 +534,9 @@ func GenCase(r *rand.Rand, thorough bool) *Case {
 			m.AddSharedValue()
 		}
 		c.Header = "// Tiny.\n\n"
+	}
+	if r.IntN(6) == 0 {
+		c.Tags = []string{"foo", "foo bar"}[r.IntN(2)]
 	}
 	var pkgs []string
 	for _, pk := range m.Pkgs {
